@@ -22,7 +22,7 @@ RULE = (
     "non-linear constraints (scalar or per-constraint bounds, filter/estimator maps), optimizer settings incl. options "
     "as dict/list/None, gradient settings (scalar or per-variable magnitudes, ABSOLUTE/RELATIVE, boundary types, sampler "
     "map, seed as int or tuple, thresholds above the counts), filter/estimator/sampler tuples, optional scaling "
-    "transforms in the validation context; plus invalid variants (lower>upper, wrong lengths) that must be rejected. "
+    "transforms in the validation context; plus invalid variants (lower>upper, wrong lengths, right length but wrong shape, index arrays of wrong length) that must be rejected. "
     "Oracle: canonical form by formula, generic walk over every reachable model/array (setattr and in-place writes must "
     "raise), values handed in as ndarrays are copied (the caller may go on writing to them), sub-configurations handed in "
     "as validated objects are not changed and give the same result every time, validate(cfg) is cfg, validate(dump) and validate(json(dump)) equal cfg field by field. "
@@ -393,7 +393,7 @@ def hypothesis_shard(item: dict[str, Any]) -> Collector:
                                 "voff": [draw(st.sampled_from([0.0, 0.25])) for _ in range(n)],
                                 "oscale": [draw(st.sampled_from([2.0, 0.5])) for _ in range(k_n)],
                                 "cscale": [draw(st.sampled_from([4.0, 0.25])) for _ in range(c_n)]}
-        inv = draw(st.integers(0, 15))
+        inv = draw(st.integers(0, 19))
         if inv == 0:
             case["invalid"] = "variable lower bound above upper bound"
             config["variables"]["lower_bounds"] = [9.0] * n
@@ -422,6 +422,22 @@ def hypothesis_shard(item: dict[str, Any]) -> Collector:
             case["invalid"] = "non-linear bounds that cannot be broadcast together"
             config["nonlinear_constraints"]["lower_bounds"] = [0.0] * (c_n + 1)
             config["nonlinear_constraints"]["upper_bounds"] = [1.0] * c_n
+        elif inv == 8 and n > 1:  # noqa: PLR2004
+            case["invalid"] = "bounds given as a column vector (right number of elements, wrong shape)"
+            config["variables"]["lower_bounds"] = [[-9.0] for _ in range(n)]
+        elif inv == 9 and n > 1:  # noqa: PLR2004
+            case["invalid"] = "initial values given as a column vector"
+            config["variables"]["initial_values"] = [[v] for v in config["variables"]["initial_values"]]
+        elif inv == 10:  # noqa: PLR2004
+            case["invalid"] = "weights given as a matrix"
+            which = draw(st.sampled_from(["objectives", "realizations"]))
+            (objectives if which == "objectives" else realizations)["weights"] = [list((objectives if which == "objectives" else realizations)["weights"])]
+        elif inv == 11 and f_n and k_n > 0:  # noqa: PLR2004
+            case["invalid"] = "filter indices of wrong length"
+            objectives["realization_filters"] = [0] * (k_n + 1)
+        elif inv == 12 and n > 1:  # noqa: PLR2004
+            case["invalid"] = "sampler indices of wrong length"
+            config["gradient"]["samplers"] = [0] * (n + 1)
         return case
 
     def body(case: dict[str, Any]) -> None:
